@@ -1,6 +1,7 @@
 import XdistModel.Driver.Sched
 import XdistModel.Driver.Worker
 import XdistModel.Driver.Pure
+import XdistModel.Driver.Ctl
 open Xdist.Driver
 
 def main (args : List String) : IO UInt32 := do
@@ -8,6 +9,7 @@ def main (args : List String) : IO UInt32 := do
   let stdout ← IO.getStdout
   match args with
   | ["sched"] => loop stdin stdout ({} : Sched.St) Sched.handle; return 0
+  | ["ctl"] => loop stdin stdout ({} : Ctl.St) Ctl.handle; return 0
   | ["pure"] => loop stdin stdout ({} : Pure.St) Pure.handle; return 0
   | ["worker"] => loop stdin stdout ({} : Xdist.Worker.State) Worker.handle; return 0
   | _ => IO.eprintln "usage: driver <component>"; return 2
